@@ -406,7 +406,7 @@ def main_for(mod, argv):
             mod.worker_init()
         case = rp.get("case")
         if case is not None and isinstance(rp.get("witness"), dict) and rp["witness"].get("model_z"):
-            case = dict(case, model_z=rp["witness"]["model_z"], info=rp["witness"].get("info"))
+            case = dict(case, model_z=rp["witness"]["model_z"], info=rp["witness"].get("info"), wcfg=rp["witness"].get("cfg"), wfamily=rp["witness"].get("family"))
         if case is not None:
             case["sdir"] = scratch_dir(mod.PID + "-replay")
         if case is None and hasattr(mod, "replay_witness"):
